@@ -297,3 +297,59 @@ Definition check_1993 (fs : list field) : verdict :=
          (expect 2 (reads_pos buf eff =? rd) [FZ (reads_pos buf eff)])
   | _ => VBad 99 []
   end.
+
+(* ------------------------------------------------------------------ internal/json: IsSpace, the tables and per-byte steps of the portable quoteString *)
+From DG Require Gen_rt Gen_json Gen_jsonportable Json.
+
+(* the loop of quoteString around the two generated steps; runes other than U+2028 / U+2029 are skipped (stepping over their bytes one
+   at a time is the same: bytes >= 0x80 are never ASCII and a continuation byte never starts E2 80 A8/A9) *)
+Fixpoint qs_loop (fuel : nat) (s e : list Z) (start i : Z) : list Z :=
+  match fuel with
+  | O => e
+  | S f =>
+    if i <? blen s then
+      let b := idx s i in
+      if b <? 128 then
+        let '(_, i', e', start') := Gen_jsonportable.quoteString_ascii e s start i b in qs_loop f s e' start' i'
+      else if (b =? 226) && (idx s (i + 1) =? 128) && ((idx s (i + 2) =? 168) || (idx s (i + 2) =? 169)) && (i + 2 <? blen s) then
+        let '(_, e', i', start') := Gen_jsonportable.quoteString_linesep e s start i (8232 + (idx s (i + 2) - 168)) 3 in qs_loop f s e' start' i'
+      else qs_loop f s e start (i + 1)
+    else if start <? blen s then e ++ slice_from s start else e
+  end.
+Definition quote_string_gen (prefix s : list Z) : list Z := qs_loop (S (length s)) s prefix 0 0.
+
+(* the reference: esc_byte of Json.v per byte, and the six-character escapes of U+2028 / U+2029 *)
+Fixpoint escape_portable (fuel : nat) (s : list Z) : list Z :=
+  match fuel with
+  | O => []
+  | S f =>
+    match s with
+    | 226 :: 128 :: 168 :: r => [92; 117; 50; 48; 50; 56] ++ escape_portable f r
+    | 226 :: 128 :: 169 :: r => [92; 117; 50; 48; 50; 57] ++ escape_portable f r
+    | c :: r => Json.esc_byte c ++ escape_portable f r
+    | [] => []
+    end
+  end.
+
+(* check 391 / 1891 / 292 fields:
+     0, image of IsSpace over 0..255 (one byte 0/1 each)
+     1, image of rt.SafeSet over 0..127, rt.Hex
+     2, prefix, s, prefix + NoQuote(s) of the portable quoteString *)
+Definition b2zl (l : list bool) : list Z := map Z.b2z l.
+Definition check_jsonleaf (fs : list field) : verdict :=
+  match fs with
+  | [FZ 0; FB img] =>
+    vand (expect 1 (bytes_eqb img (b2zl (map Gen_json.IsSpace (seqZ 0 256)))) [FB (b2zl (map Gen_json.IsSpace (seqZ 0 256)))])
+         (expect 2 (bytes_eqb img (b2zl (map Json.is_ws (seqZ 0 256)))) [FB (b2zl (map Json.is_ws (seqZ 0 256)))])
+  | [FZ 1; FB safe; FB hex] =>
+    vand (expect 3 (bytes_eqb safe (b2zl (map Gen_rt.SafeSet (seqZ 0 128))) && bytes_eqb hex (map Gen_rt.Hex (seqZ 0 16))) [])
+         (expect 4 (bytes_eqb safe (b2zl (map (fun b => bytes_eqb (Json.esc_byte b) [b]) (seqZ 0 128))) &&
+                    bytes_eqb hex (map Json.hex_digit (seqZ 0 16))) [])
+  | [FZ 2; FB prefix; FB s; FB out] =>
+    vand (expect 5 (bytes_eqb out (quote_string_gen prefix s)) [FB (quote_string_gen prefix s)])
+         (expect 6 (bytes_eqb out (prefix ++ escape_portable (S (length s)) s)) [FB (prefix ++ escape_portable (S (length s)) s)])
+  | _ => VBad 99 []
+  end.
+Definition check_292 (fs : list field) : verdict := check_jsonleaf fs.
+Definition check_391 (fs : list field) : verdict := check_jsonleaf fs.
+Definition check_1891 (fs : list field) : verdict := check_jsonleaf fs.
